@@ -398,7 +398,7 @@ def _isinst(v, ty):
     if isinstance(v, VConst):
         return isinstance(v.obj, ty)
     if isinstance(v, VObj):
-        return getattr(ty, "__name__", None) == v.cls
+        return getattr(ty, "__name__", None) == v.cls or ty is object
     raise Unsupported(f"isinstance of {v!r}")
 
 
@@ -557,6 +557,38 @@ SPEC_PRIMS = {
 }
 
 
+def quoter_contract(name):
+    """Abstract contract of a quoter instance at its call sites (assumed here; it is the
+    postcondition C01-O1 that the quoter proofs discharge): the result is a function of the
+    argument, it is '' for '', and every character is in the component's output alphabet."""
+    from contracts import spec_quote
+    codes = [ord(c) for c in spec_quote.out_alphabet(name)]
+
+    def fn(ex, st, args, kwargs, node):
+        s = args[0]
+        if isinstance(s, VNone):
+            yield NONE, st
+            return
+        if not isinstance(s, VStr):
+            raise Unsupported(f"{name} applied to {s!r}")
+        if s.conc is not None and s.conc == "":
+            yield lit(""), st
+            return
+        key = ("quoter", name) + _skey(s)
+        m = _memo(st.ctx)
+        r = m.get(key)
+        if r is None:
+            r = V.fresh_str(st.ctx, name.lower())
+            A, lo, hi = r.a, r.lo, r.hi
+            st.ctx.addq(f"alphabet({name})", A, lambda k: z3.Implies(z3.And(lo <= k, k < hi), V.in_set(A[k], codes)))
+            st.ctx.add(z3.Implies(s.len() == 0, r.len() == 0))
+            r.tags["quoted_by"] = (name, s)
+            m[key] = r
+            ex.assumed_contracts.add(f"yarl._quoters:{name} (result alphabet = RFC 3986 literal set of the component + '%' + upper-case hex)")
+        yield r, st
+    return fn
+
+
 def install(ex):
     from .engine import Prim
     import unicodedata
@@ -579,6 +611,14 @@ def install(ex):
     add(builtins.enumerate, "enumerate", b_enumerate)
     add(re.match, "re.match", re_match)
     add(unicodedata.normalize, "unicodedata.normalize", ud_normalize)
+    ex.assumed_contracts = set()
+    try:
+        import yarl._quoters as _q
+        from contracts import spec_quote
+        for name in spec_quote.QUOTERS:
+            add(getattr(_q, name), "quoter." + name, quoter_contract(name))
+    except ImportError:
+        pass
     try:
         from contracts import prims
         for name, fn in SPEC_PRIMS.items():
